@@ -8,7 +8,7 @@ from sa.effects import classify, open_mode
 from sa.flow import show, sig, subterms
 from sa.model import AnalysisError, norm, parent, walk_no_nested
 
-from .common import callers_of, commands, need, prov, reach_from
+from .common import is_call, callers_of, commands, need, prov, reach_from
 from .xmlcommon import writers
 
 
@@ -47,10 +47,30 @@ def run(report, p):
             if arg is None:
                 raise AnalysisError(f"{f.loc(call)}: open without a path")
             origs = pr.origins(arg, f)
-            tmp_forms = [o for o in origs if o[0] == "op" and o[1] == "Add" and len(o[2]) == 2 and o[2][1][0] == "const" and isinstance(o[2][1][1], str) and o[2][1][1]]
-            if len(tmp_forms) != len(origs) or not origs:
+            if not origs:
+                raise AnalysisError(f"{f.loc(call)}: no provenance for the path that is opened for writing")
+            forms = []  # (raw origin, final term, suffix, keeps_extension)
+            plain_final = []
+            for o in origs:
+                t = pr.inline(o, depth=2) if o[0] == "call" and o[1] in p.funcs else o
+                parts = t[2] if (t[0] == "op" and t[1] in ("Add", "fstring")) else None
+                if parts is not None and len(parts) == 2 and parts[1][0] == "const" and isinstance(parts[1][1], str) and parts[1][1]:
+                    forms.append((o, parts[0], parts[1][1], False))
+                elif parts is not None and len(parts) == 3 and parts[1][0] == "const" and isinstance(parts[1][1], str) and parts[1][1] and all(x[0] == "elem" and is_call(x[1], "os.path.splitext") for x in (parts[0], parts[2])) and parts[0][2] == ("const", 0) and parts[2][2] == ("const", 1) and sig(parts[0][1][2][0], 4) == sig(parts[2][1][2][0], 4):
+                    # <stem> + ".tmp" + <extension of the final name>
+                    forms.append((o, parts[0][1][2][0], parts[1][1], True))
+                elif t[0] in ("param", "attr"):
+                    plain_final.append(o)
+                else:
+                    raise AnalysisError(f"{f.loc(call)}: the name of the file opened for writing is built by `{show(t)[:100]}`, a form this checker does not model")
+            if plain_final:
                 r1.check(False, f, call, "a durable history file is opened for writing under its final name and written incrementally: a crash leaves a truncated / half-written file that the next load aborts on", witness="; ".join(show(o)[:160] for o in origs))
                 continue
+            for o, final, suffix, keeps_ext in forms:
+                if keeps_ext and f is writers(p)[0]:
+                    r1.check(False, f, call, f"the manifest's temporary name keeps the manifest extension (<stem>{suffix}<ext>): the loader takes the half-written temporary of a killed run for a generation and the next command aborts on it", construct="temporary keeps the manifest extension")
+            tmp_forms = [("op", "Add", [final, ("const", suffix if not keeps_ext else suffix + "<ext>")]) for o, final, suffix, keeps_ext in forms]
+            raw_of = {id(tf): o for tf, (o, _, _, _) in zip(tmp_forms, forms)}
             ok_all = True
             # the temporary name is a fixed function of the final name: a killed run leaves it behind, so it must be re-creatable
             # (the manifest's name carries a fresh number and the time of the run, its temporary does not recur; the chain file's does)
@@ -69,7 +89,7 @@ def run(report, p):
                     if any(t in ("ext:os.replace", "ext:os.rename") for t in tg2) and len(c2.args) == 2:
                         so = pr.origins(c2.args[0], f)
                         do = pr.origins(c2.args[1], f)
-                        if any(sig(x, 4) == sig(o, 4) for x in so) and any(sig(x, 4) == sig(final, 4) for x in do):
+                        if any(sig(x, 4) == sig(raw_of[id(o)], 4) for x in so) and any(sig(x, 4) == sig(final, 4) for x in do):
                             reps.append(g.node_for(c2))
                 if not reps:
                     r1.check(False, f, call, "the temporary file is never moved to the final name with os.replace(tmp, final)", construct="missing os.replace")
@@ -107,6 +127,54 @@ def run(report, p):
         r3.instance(cf, call, norm(call)[:80])
         wr = [g.node_for(c) for c, tg in p.calls[cf.qual] if any(mw.qual in p.reachable([t]) for t in tg if t in p.funcs)]
         r3.check(any(g.dominates(w, g.node_for(call)) and w is not g.node_for(call) for w in wr), cf, call, "the chain file is rewritten before the new manifest has been written")
+
+    # ------------------------------------------------------------------ R15.4
+    r4 = report.rule(
+        "R15.4",
+        "the loader parses a directory entry as a manifest only under a test that its name ends with the manifest extension (so a temporary left by a killed run, whose suffix R15.1 "
+        "shows not to end with that extension, is never parsed); the chain reader is given the chain file's constant name only",
+        1,
+    )
+    from sa.absint import UNKNOWN, Evaluator
+
+    loader = p.funcs.get("ascmhl.history.MHLHistory.load_from_path")
+    if loader is None:
+        raise AnalysisError("MHLHistory.load_from_path not found")
+    mparse = "ascmhl.hashlist_xml_parser.parse"
+    lfuncs = [loader] + [p.funcs[t] for _, tg in p.calls[loader.qual] for t in tg if t in p.funcs and p.funcs[t].module is loader.module and p.funcs[t] is not loader and mparse in [x for _, tg2 in p.calls[t] for x in tg2]]
+    n_parse = 0
+    for lf in lfuncs:
+        gl = cfg_of(lf)
+        for call, tg in p.calls[lf.qual]:
+            if mparse not in tg:
+                continue
+            # only calls whose path comes from a directory listing
+            listed = any(any(s2[0] == "call" and s2[1] in ("ext:os.walk", "ext:os.listdir", "ext:os.scandir") for s2 in subterms(pr.resolve(o, depth=3))) for o in pr.origins(call.args[0], lf)) if call.args else False
+            if not listed:
+                continue
+            n_parse += 1
+            r4.instance(lf, call, norm(call)[:80])
+            ok = False
+            for t, l in gl.control_deps(gl.node_for(call), through_loops=False):
+                if t.kind != "test":
+                    continue
+                ends = [x for x in ast.walk(t.ast) if isinstance(x, ast.Call) and isinstance(x.func, ast.Attribute) and x.func.attr == "endswith" and x.args and p.fold(x.args[0], lf) == ext]
+                if not ends:
+                    continue
+
+                def mk(val):
+                    def atom(e, env):
+                        return val if any(e is x for x in ends) else None
+
+                    return atom
+
+                # the branch taken towards the parse must be impossible when the name does not end with the extension
+                tv = Evaluator(mk(False)).eval(t.ast, {})
+                if tv is not UNKNOWN and bool(tv) != (l == "T"):
+                    ok = True
+            r4.check(ok, lf, call, f"the loader parses directory entries as manifests without requiring the name to end with {ext!r}: a temporary file left by an interrupted run is parsed and the load aborts on it", construct="manifest parse not guarded by the extension test")
+    if n_parse == 0:
+        raise AnalysisError("loader: no manifest parse of a listed directory entry found")
 
     report.not_decided += [
         "the full crash-point quantifier: reordering of writes by the OS, durability of directory entries, fsync",
